@@ -54,6 +54,8 @@ def typed_fields(typ, is_buy, ttl):
         return _np.bool_(is_buy), (None if ttl is None else _np.int64(ttl))
     if typ == "fl":
         return is_buy, (None if ttl is None else float(ttl))
+    if typ == "fr":  # a lifetime that is not a whole number of steps: gone when the clock passes it
+        return is_buy, (None if ttl is None else float(ttl) + 0.5)
     return is_buy, ttl
 
 
@@ -125,12 +127,24 @@ def make_classes(ctx: Ctx) -> Dict[str, type]:
             super().bulk_write(logs)
 
         def write_and_direct_process(self, log):
-            mon.on_step_record(log, log_code(log))
+            code = log_code(log)
+            if code in ("StB", "StE"):
+                mon.on_step_record(log, code)
+            else:
+                # any other record may be delivered synchronously as well ("no later than ..."): it then
+                # overtakes whatever is still pending, which the order oracle sees
+                self._see(log, "direct")
+                mon.stat("non_step_record_delivered_directly")
             super().write_and_direct_process(log)
 
         def bulk_write_and_direct_process(self, logs):
             for lg in logs:
-                mon.on_step_record(lg, log_code(lg))
+                code = log_code(lg)
+                if code in ("StB", "StE"):
+                    mon.on_step_record(lg, code)
+                else:
+                    self._see(lg, "direct")
+                    mon.stat("non_step_record_delivered_directly")
             super().bulk_write_and_direct_process(logs)
 
         def process_order_log(self, log):
@@ -523,12 +537,36 @@ def make_classes(ctx: Ctx) -> Dict[str, type]:
         def hooked_before_order(self, simulator, order):
             mon.probe_call(self.name, "order", True, order)
             alt = self.spec.get("alter")
-            if alt and order.price is not None:
+            if alt and order.price is not None and ("f" in alt or "d" in alt):
                 if "f" in alt:
                     order.price = order.price * float(alt["f"])
                 if "d" in alt:
                     order.price = order.price + float(alt["d"])
                 mon.probe_altered(self.name, order)
+            rw = self.spec.get("rewrite")
+            if rw:
+                # a user rule that rewrites pending orders the way the shipped OrderMistakeShock does: every
+                # public field of the order, including its kind, its side and the account it is booked to
+                self._n_rw = getattr(self, "_n_rw", 0) + 1
+                if self._n_rw % int(rw.get("every", 1)) == 0 and id(order) not in mon.obj2mo:  # pending orders only
+                    market = simulator.id2market[order.market_id]
+                    if rw.get("kind") == "L" and order.kind == MARKET_ORDER:
+                        order.kind = LIMIT_ORDER
+                        order.price = market.get_market_price() * (1.0 + float(rw.get("off", 0.0)))
+                    elif rw.get("kind") == "M" and order.kind == LIMIT_ORDER:
+                        order.kind = MARKET_ORDER
+                        order.price = None
+                    if rw.get("flip"):
+                        order.is_buy = not order.is_buy
+                    if rw.get("vol"):
+                        order.volume = max(1, int(order.volume) + int(rw["vol"]))
+                    if rw.get("ttl") is not None:
+                        order.ttl = int(rw["ttl"])
+                    if rw.get("owner") is not None:
+                        ags = [a for a in simulator.agents if a.is_market_accessible(order.market_id)]
+                        if ags:
+                            order.agent_id = ags[int(rw["owner"]) % len(ags)].agent_id
+                    mon.probe("order_rewritten_by_hook")
 
         def hooked_after_order(self, simulator, order_log):
             mon.probe_call(self.name, "order", False, order_log)
